@@ -3,95 +3,126 @@ import SFV.Proofs.IoIR
 # C14 — saving and loading a program preserves its meaning
 
 Statements over the K8 model (`SFV/Model/IoIR.lean`): `toBB`/`toProgramBB`, `toXIR`/`toProgramXIR` are
-transcriptions of the SF converters; the library text layer is `reparseBB` (Blackbird recomputes the
-mode set) resp. the identity (XIR) — a hypothesis validated through real text on every run.
+transcriptions of the SF converters.  Two library layers enter as explicit data / hypotheses, validated
+on every run against the installed libraries: the text layer (`reparseBB`: Blackbird recomputes the mode
+set and text carries no held values; XIR: identity) and SymPy's parser as the table
+`P : String → Option Sym` (the fragment predicates demand `P (printed form of e) = some e`).
 "Same meaning" is equality of every field of the program (`Prog`: operations, parameters, modes, flags,
 options, target, TDM arrays) up to (i) the dagger normal form `normCmd` for Blackbird, which has no
 syntax for `.H` (an inverted gate of `NEGATION_INVERTS` *is* the gate with negated first parameter —
-the convention of `ops.Gate`), and (ii) trailing unused modes (`n` becomes `usedModes`).
+the convention of `ops.Gate`), (ii) trailing unused modes (`n` becomes what a reader can infer) and
+(iii) the values parameters happen to hold (`clearCmd`: a freshly loaded program holds none).
 -/
 namespace SFV.C14
 open SFV.Io
 
-/-- **Blackbird round trip, whole programs.**  For every (non-TDM) program of the expressible fragment
-(`ExprBB`: any number of commands on any modes; numeric / array / measured-expression parameters;
-`select` / `dark_counts`; inverted gates of `NEGATION_INVERTS`; target with run options), writing with
-`to_blackbird`, passing through text and reading with `to_program` succeeds and returns the program
-itself in dagger normal form.  No flag, parameter, mode, option is dropped. -/
-theorem roundtrip_blackbird (p : Prog) (h : ExprBB p) :
-    ∃ bb, toBB p = .ok bb ∧ toProgramBB (reparseBB bb) = .ok (normBB p) :=
-  bb_prog_rt p h
+/-- **Blackbird round trip, whole programs, ordinary and TDM.**  For every program of the expressible
+fragment `ExprBB` (any number of commands on any modes; numbers, arrays, strings, expressions of measured
+parameters, expressions of free parameters, TDM loop variables and expressions of them; `select` /
+`dark_counts`; inverted gates of `NEGATION_INVERTS`; `Fouriergate`; target with shots / cutoff; TDM arrays
+with `N = [modes]`), `to_blackbird` succeeds and text + `to_program` return the program itself in dagger
+normal form.  Nothing is dropped: flags, parameters, modes, options, per-bin arrays. -/
+theorem roundtrip_blackbird (P : String → Option Sym) (p : Prog) (h : ExprBB P p) :
+    ∃ bb, toBB p = .ok bb ∧ toProgramBB P (reparseBB bb) = .ok (normBB p) :=
+  bb_prog_rt P p h
+
+/-- `2*q0` with its negation, as SymPy reports it; currently evaluating to 1/2 (measured in an earlier run) -/
+def exMeas : Sym :=
+  { pos := ⟨"2*q0", "2*q0", false, none⟩, neg := ⟨"-2*q0", "-2*q0", false, none⟩, meas := [0], frees := [],
+    val := some (.flt (1/2)) }
+
+/-- `2*{x} + 1`, bound to 3/2 -/
+def exFree : Sym :=
+  { pos := ⟨"2*{x} + 1", "2*x + 1", false, none⟩, neg := ⟨"-2*{x} - 1", "-2*x - 1", false, none⟩, meas := [],
+    frees := ["x"], val := some (.flt (3/2)) }
+
+/-- SymPy's parser on the strings involved -/
+def exP : String → Option Sym := fun s =>
+  if s = "2*{x} + 1" ∨ s = "2*x + 1" then some exFree.noVal
+  else if s = "-2*{x} - 1" ∨ s = "-2*x - 1" then some exFree.negate.noVal
+  else if s = "2*q0" then some exMeas.noVal else none
 
 def exProg : Prog :=
   { name := "ex", n := 4, target := some "gaussian", shots := some 3, cutoff := some 5,
     cmds := [
       { cls := "Sgate", regs := [2], pars := [.sc (.flt (1/2)), .sc (.flt (1/8))], dagger := true },
-      { cls := "BSgate", regs := [2, 0], pars := [.sc (.flt (1/4)), .sc (.int 0)] },
+      { cls := "BSgate", regs := [2, 0], pars := [.sym exFree, .sc (.int 0)], dagger := true },
       { cls := "MeasureHomodyne", regs := [0], pars := [.sc (.flt (1/4))], select := some (.sc (.flt (1/2))) },
-      { cls := "Zgate", regs := [1], dagger := true,
-        pars := [.sym { pos := ⟨"2*q0", "2*q0", false, none⟩, neg := ⟨"-2*q0", "-2*q0", false, none⟩,
-                        meas := [0], frees := [] }] },
+      { cls := "Zgate", regs := [1], dagger := true, pars := [.sym exMeas] },
+      { cls := "Fouriergate", regs := [1], pars := [halfPi] },
       { cls := "Interferometer", regs := [1, 2],
         pars := [.arr [2, 2] [.cpx 0 1, .int 0, .int 0, .cpx 0 1]] },
       { cls := "MeasureFock", regs := [2, 1], dark := some (.lst [.flt (1/8), .flt (1/4)]) } ] }
 
-/-- non-vacuity: a 4-mode program with a trailing unused mode, inverted gates, a measured-parameter
-expression, an array, post-selection, dark counts, target and options is in the fragment, and the
-model really drops nothing on it -/
-example : ExprBB exProg := by
-  refine ⟨rfl, by decide, (by intro h; cases h), ?_⟩
-  intro c hc
-  simp only [exProg, List.mem_cons, List.not_mem_nil, or_false] at hc
-  rcases hc with rfl | rfl | rfl | rfl | rfl | rfl
-  · refine ⟨by decide, rfl, Or.inr ⟨by decide, rfl, rfl, ?_, ?_⟩⟩
-    · intro v hv; simp only [List.mem_cons, List.not_mem_nil, or_false] at hv
-      rcases hv with rfl | rfl <;> trivial
-    · intro _; exact ⟨by decide, _, _, _, rfl, rfl, trivial⟩
-  · refine ⟨by decide, rfl, Or.inr ⟨by decide, rfl, rfl, ?_, by intro h; cases h⟩⟩
-    intro v hv; simp only [List.mem_cons, List.not_mem_nil, or_false] at hv
-    rcases hv with rfl | rfl <;> trivial
-  · refine ⟨by decide, rfl, Or.inl ⟨by decide, rfl, ?_, ?_, ?_, Or.inl rfl⟩⟩
-    · intro v hv; simp only [List.mem_cons, List.not_mem_nil, or_false] at hv
-      subst hv; trivial
-    · intro v hv; cases hv; trivial
-    · intro v hv; cases hv
-  · refine ⟨by decide, rfl, Or.inr ⟨by decide, rfl, rfl, ?_, ?_⟩⟩
-    · intro v hv; simp only [List.mem_cons, List.not_mem_nil, or_false] at hv
-      subst hv; exact Or.inl ⟨by decide, by decide⟩
-    · intro _; exact ⟨by decide, _, _, _, rfl, rfl, Or.inl ⟨by decide, by decide⟩⟩
-  · refine ⟨by decide, rfl, Or.inr ⟨by decide, rfl, rfl, ?_, by intro h; cases h⟩⟩
-    intro v hv; simp only [List.mem_cons, List.not_mem_nil, or_false] at hv
-    subst hv; trivial
-  · refine ⟨by decide, rfl, Or.inl ⟨by decide, rfl, ?_, ?_, ?_, Or.inr rfl⟩⟩
-    · intro v hv; cases hv
-    · intro v hv; cases hv
-    · intro v hv; cases hv; trivial
-
-example : (toBB exProg >>= fun bb => toProgramBB (reparseBB bb)) = .ok (normBB exProg) := by rfl
+/-- non-vacuity: on a 4-mode program with a trailing unused mode, inverted gates with numeric, free and
+measured first parameters (holding values), `Fouriergate`, a complex array, post-selection, dark counts,
+target and options, the composed model functions return the normal form, and the normal form differs
+from the program (dagger, values, `n`) -/
+example : (toBB exProg >>= fun bb => toProgramBB exP (reparseBB bb)) = .ok (normBB exProg) := by rfl
 example : normBB exProg ≠ exProg := by decide +kernel
 
-/-- **one command through Blackbird**, the lemma the program theorem is an induction over: the written
-operation carries the command's modes and reads back as the command in dagger normal form. -/
-theorem roundtrip_blackbird_command (n k : Nat) (c : Cmd) (h : CmdBB false n k c) :
-    ∃ o, toBBOp false c = .ok o ∧ o.modes = c.regs ∧ fromBBOp n o = .ok (normCmd c) :=
+/-- **XIR round trip, whole programs, ordinary and TDM.**  For every program of the fragment `ExprX`
+(numbers, arrays, expressions of free and measured parameters, TDM loop variables and expressions of
+them, measurement phase / `select` / `dark_counts`, *any* inverse flags, `Fouriergate`, name, target,
+shots, cutoff, `N` and the per-bin arrays), `to_program (to_xir p)` returns `p` itself — `dagger`
+included, nothing normalised except the held values and `n` (highest used mode + 1, for TDM `sum N`). -/
+theorem roundtrip_xir (P : String → Option Sym) (p : Prog) (h : ExprX P p) :
+    toProgramXIR P (toXIR p) = .ok (normX p) :=
+  xir_prog_rt P p h
+
+def exTdm : Prog :=
+  { name := "t", n := 3, target := some "TD2", shots := some 5, cutoff := some 4,
+    tdm := some { N := [1, 2], params := [[.flt (1/8), .flt (1/4)], [.int 1, .int 2]] },
+    cmds := [
+      { cls := "BSgate", regs := [1, 2], pars := [.sym (loopSym 0), .sc (.flt (1/2))], dagger := true },
+      { cls := "Rgate", regs := [1], pars := [.sym (loopSym 1)] },
+      { cls := "MeasureHomodyne", regs := [0], pars := [.sym (loopSym 1)], select := some (.sc (.flt 0)) } ] }
+
+example : toProgramXIR exP (toXIR exTdm) = .ok (normX exTdm) ∧ normX exTdm = exTdm := ⟨by rfl, by decide +kernel⟩
+example : toProgramXIR exP (toXIR exProg) = .ok (normX exProg) ∧ (normX exProg).cmds.map (·.dagger) =
+    exProg.cmds.map (·.dagger) := ⟨by rfl, by decide +kernel⟩
+
+/-- the TDM program with `N = [3]` also goes through Blackbird (the loop variable of the inverted gate
+comes back negated: `-{p0}` is written as a string and parsed) -/
+def exTdmBB : Prog := { exTdm with tdm := some { N := [3], params := [[.flt (1/8), .flt (1/4)], [.int 1, .int 2]] } }
+def exPT : String → Option Sym := fun s => if s = "-{p0}" then some (loopSym 0).negate else none
+example : (toBB exTdmBB >>= fun bb => toProgramBB exPT (reparseBB bb)) = .ok (normBB exTdmBB) := by rfl
+
+/-- **one command through Blackbird**, the lemma the program theorem is an induction over. -/
+theorem roundtrip_blackbird_command (P : String → Option Sym) (tdm : Bool) (n : Nat) (c : Cmd)
+    (h : CmdBB P tdm n c) :
+    ∃ o, toBBOp tdm c = .ok o ∧ o.modes = c.regs ∧ rdBBOp P tdm n (textOp o) = .ok (clearCmd (normCmd c)) :=
   bb_cmd_rt h
 
-example : CmdBB false 3 0
-    { cls := "BSgate", regs := [2, 0], dagger := true, pars := [.sc (.flt (1/4)), .sc (.flt (1/8))] } :=
-  ⟨by decide, rfl, Or.inr ⟨by decide, rfl, rfl, by
+example : CmdBB exP false 3 { cls := "BSgate", regs := [2, 0], dagger := true, pars := [.sym exFree, .sc (.flt (1/8))] } :=
+  ⟨rfl, by
     intro v hv; simp only [List.mem_cons, List.not_mem_nil, or_false] at hv
-    rcases hv with rfl | rfl <;> trivial, fun _ => ⟨by decide, _, _, _, rfl, rfl, trivial⟩⟩⟩
+    rcases hv with rfl | rfl
+    · exact Or.inr (Or.inr ⟨rfl, Or.inl rfl, by decide⟩)
+    · trivial,
+   Or.inr ⟨by decide, rfl, rfl, Or.inr ⟨by decide, fun _ => ⟨by decide, _, _, _, rfl, rfl,
+     Or.inr (Or.inr ⟨rfl, Or.inl rfl, by decide⟩)⟩⟩⟩⟩
+
+/-- **one command through XIR** (gates, preparations, channels, measurements; ordinary and TDM): returned
+unchanged, inverse flag included. -/
+theorem roundtrip_xir_command (P : String → Option Sym) (tdm : Bool) (k n : Nat) (c : Cmd)
+    (h : CmdX P tdm k n c) : rdXStmt P tdm n k (toXStmt tdm c) = .ok (clearCmd c) :=
+  xir_cmd_rt h
+
+example : CmdX exP true 2 3 { cls := "MeasureHomodyne", regs := [0], pars := [.sym (loopSym 1)], select := some (.sc (.flt 0)) } :=
+  ⟨rfl, Or.inl ⟨by decide, by decide, Or.inr ⟨_, rfl, Or.inl ⟨rfl, 1, by decide, rfl⟩⟩,
+    (by intro v hv; cases hv; trivial), (by intro v hv; cases hv), Or.inl rfl⟩⟩
 
 /-- **the inverse flag is never silently dropped by the Blackbird writer**: for *every* command
 (no fragment hypothesis), an inverted non-measurement either makes the writer raise, or is written
 with its first parameter negated. -/
 theorem dagger_never_dropped (tdm : Bool) (c : Cmd) (hd : c.dagger = true) (hm : isMeasure c.cls = false)
     (o : BBOp) (h : toBBOp tdm c = .ok o) :
-    ∃ a as b, c.pars = a :: as ∧ a.neg = some b ∧ o.args = (b :: as).map (bbArg tdm) := by
+    ∃ a as b, ctorParams c = a :: as ∧ a.neg = some b ∧ o.args = (b :: as).map (bbArg tdm) := by
   unfold toBBOp at h
   simp only [hm, Bool.false_eq_true, ↓reduceIte, hd] at h
   split at h
-  · cases hp : c.pars with
+  · cases hp : ctorParams c with
     | nil => simp [hp, negFirst, bind, Except.bind] at h
     | cons a as =>
       cases hb : a.neg with
@@ -108,8 +139,8 @@ example : ∃ o, toBBOp false exS = .ok o ∧ o.args = [.sc (.flt (-1/2)), .sc (
 
 /-- **the XIR writer and reader carry the inverse flag of every command** (no hypothesis on the
 command beyond "the reader accepts it"). -/
-theorem xir_inverse_flag (tdm : Bool) (n : Nat) (c c' : Cmd)
-    (h : fromXStmt n (toXStmt tdm c) = .ok c') : c'.dagger = c.dagger := by
+theorem xir_inverse_flag (P : String → Option Sym) (tdm : Bool) (n : Nat) (c c' : Cmd)
+    (h : fromXStmt P n (toXStmt tdm c) = .ok c') : c'.dagger = c.dagger := by
   have hb : ∀ cls regs args kws inv (r : Cmd), build cls regs args kws inv = .ok r → r.dagger = inv := by
     intro cls regs args kws inv r hr
     unfold build at hr
@@ -126,7 +157,9 @@ theorem xir_inverse_flag (tdm : Bool) (n : Nat) (c c' : Cmd)
   · simp only [bind, Except.bind] at h
     split at h
     · cases h
-    · rw [← hinv]; exact hb _ _ _ _ _ _ h
+    · split at h
+      · cases h
+      · rw [← hinv]; exact hb _ _ _ _ _ _ h
   · simp only [bind, Except.bind] at h
     split at h
     · cases h
@@ -134,34 +167,17 @@ theorem xir_inverse_flag (tdm : Bool) (n : Nat) (c c' : Cmd)
       · cases h
       · rw [← hinv]; exact hb _ _ _ _ _ _ h
 
-example : fromXStmt 3 (toXStmt false exS) = .ok exS := by rfl
+example : fromXStmt exP 3 (toXStmt false exS) = .ok exS := by rfl
 
-/- Full statement for XIR (not yet proved in Lean; evaluated against the real code on every run by the
-correspondence pairs `toXIR` / `toProgramXIR` and checked by the oracle):
-  `roundtrip_xir : ExprX p → toProgramXIR (toXIR p) = .ok { p with n := usedModes p }`
-for ordinary and TDM programs (exact equality, including `dagger`), and the TDM Blackbird variant
-  `roundtrip_blackbird_tdm : ExprBBTdm p → ∃ bb, toBB p = .ok bb ∧ toProgramBB (reparseBB bb) = .ok (normBB p)`.
-Missing: the measurement-statement case (keyword parameters `phi/select/dark_counts`) of the XIR command
-lemma, the TDM command lemmas (value lemmas `bb_val_rt_tdm`, `phi_bb_rt_tdm` exist) and the two
-list inductions.  Proved part: -/
+/-- **no state between calls (XIR writer)**: whatever values the symbolic parameters of a program hold
+(bound by `bind_params`, measured in an earlier run), `to_xir` produces the same XIR program.
+(Before the fix the writer evaluated every parameter that had a value: the model's writer had to read
+`Sym.val`, and this statement was false.) -/
+theorem to_xir_ignores_held_values (f : Sym → Option Sc) (p : Prog) : toXIR (p.reval f) = toXIR p :=
+  toXIR_reval f p
 
-/-- **one gate / preparation / channel command through XIR**: for every such command with numeric and
-array parameters (1-D arrays: shape = length), any modes, any inverse flag, `from_xir (to_xir c)` returns
-the command itself — nothing normalised, the `dagger` flag included. -/
-theorem roundtrip_xir_command_partial (n : Nat) (c : Cmd) (hF : c.cls ≠ "Fouriergate") (hkw : c.kw = [])
-    (hm : isMeasure c.cls = false) (hs : c.select = none) (hd : c.dark = none)
-    (hv : ∀ v ∈ c.pars, ValX false 0 v) : fromXStmt n (toXStmt false c) = .ok c :=
-  xir_gate_rt hF hkw hm hs hd hv
-
-def exI : Cmd := { cls := "Interferometer", regs := [3, 1], pars := [.arr [2, 2] [.cpx 0 1, .int 0, .int 0, .cpx 0 1]] }
-
-example : exI.cls ≠ "Fouriergate" ∧ isMeasure exI.cls = false ∧ (∀ v ∈ exI.pars, ValX false 0 v) ∧
-    fromXStmt 4 (toXStmt false exI) = .ok exI := by
-  refine ⟨by decide, by decide, ?_, by rfl⟩
-  intro v hv
-  simp only [exI, List.mem_cons, List.not_mem_nil, or_false] at hv
-  subst hv
-  intro m hm; cases hm
+example : exProg.reval (fun _ => none) ≠ exProg ∧ toXIR (exProg.reval fun _ => none) = toXIR exProg := by
+  decide +kernel
 
 /-- **`_factor_out_pi`**: for every integer `m`, the term `c*np.pi/d` printed for `m·π/12` denotes it
 (`c/d = m/12`, `d > 0`).  (With the truncating `int(p / factor)` of the original code this is false.) -/
@@ -174,30 +190,52 @@ example : piTerm 60 = (5, 1) ∧ piString 60 = "5*np.pi" ∧ piTerm 63 = (21, 4)
 
 /-! ### known findings: what the converters do outside the fragment (model = code) -/
 
-/-- a symbolic parameter without measured atoms (a free parameter, an expression of free parameters or
-of TDM loop variables) comes back from Blackbird as a *string*, for every such expression -/
-theorem free_parameter_blackbird_counterexample (n : Nat) (e : Sym) (h : e.meas = [])
-    (hl : e.pos.loop = none) :
-    convert n (unPname (bbArg false (.sym e))) = .ok (.str e.pos.text) ∧
-    convert n (tdmArg (bbArg true (.sym e))) = .ok (.str e.pos.text) := by
-  simp [bbArg, h, hl, unPname, tdmArg, convert]
-
-/-- a string parameter (free parameter name, expression, measured parameter) makes the non-TDM XIR
-reader raise `TypeError`, for every symbolic parameter -/
-theorem symbolic_parameter_xir_counterexample (e : Sym) :
-    xirReadArg (xirArg false (.sym e)) = .error .typeError := by
-  simp only [xirArg]
-  rfl
-
 /-- run options of a program without target are not written to Blackbird -/
 theorem options_without_target_counterexample (p : Prog) (h : p.target = none) (bb : BB)
-    (hb : toBB p = .ok bb) : bb.shots = none ∧ bb.cutoff = none := by
+    (hb : toBB p = .ok bb) : bb.shots = none ∧ bb.cutoff = none ∧ bb.extra = [] := by
   unfold toBB at hb
   simp only [bind, Except.bind] at hb
   split at hb
   · cases hb
   · simp only [h, Option.isSome_none, Bool.false_eq_true, ↓reduceIte, Except.ok.injEq] at hb
-    rw [← hb]; exact ⟨rfl, rfl⟩
+    rw [← hb]; exact ⟨rfl, rfl, rfl⟩
+
+/-- run / backend options other than `shots` and `cutoff_dim` are restored by no reader, and never
+written to XIR -/
+theorem other_options_counterexample (P : String → Option Sym) (bb : BB) (x : XIR) (p : Prog) :
+    (toProgramBB P bb = .ok p → p.extra = []) ∧ (toProgramXIR P x = .ok p → p.extra = []) := by
+  constructor
+  · intro h
+    unfold toProgramBB at h
+    split at h
+    · cases h
+    · split at h
+      · simp only [fromBBTdm, bind, Except.bind] at h
+        split at h
+        · cases h
+        · cases h; rfl
+      · simp only [fromBB, bind, Except.bind] at h
+        split at h
+        · cases h
+        · cases h; rfl
+  · intro h
+    unfold toProgramXIR at h
+    split at h
+    · unfold fromXIRTdm at h
+      split at h
+      · cases h
+      · cases h
+      · simp only [bind, Except.bind] at h
+        split at h
+        · cases h
+        · cases h; rfl
+    · unfold fromXIR at h
+      split at h
+      · cases h
+      · simp only [bind, Except.bind] at h
+        split at h
+        · cases h
+        · cases h; rfl
 
 /-- constructor keyword options outside `op.p` are lost by the readers (both IRs) -/
 theorem constructor_kwargs_counterexample (cls : String) (regs : List Nat) (args : List Val)
@@ -209,5 +247,19 @@ theorem constructor_kwargs_counterexample (cls : String) (regs : List Nat) (args
   · split at h
     · cases h
     · cases h; rfl
+
+/-- XIR has no string values: a string parameter never comes back as a string (it is parsed as an
+expression, or the reader raises) -/
+theorem string_parameter_xir_counterexample (P : String → Option Sym) (tdm : Bool) (k : Nat) (s : String)
+    (v : Val) (h : rdX P tdm k (xirArg tdm (.str s)) = .ok v) : ∃ e, v = .sym e := by
+  cases tdm
+  · simp only [rdX, Bool.false_eq_true, ↓reduceIte, xirArg, xirReadArg, xirExpr] at h
+    split at h
+    · cases h; exact ⟨_, rfl⟩
+    · cases h
+  · simp only [rdX, ↓reduceIte, xirArg, xirReadArgTdm, xirExpr] at h
+    split at h
+    · cases h; exact ⟨_, rfl⟩
+    · cases h
 
 end SFV.C14
